@@ -205,3 +205,14 @@ def c01_double_percent_rejected(w, v):
     obs = w.get('observed') or ''
     return any(re.search(r'%[\s)]*%', t) for t in texts) or \
         bool(re.search(r'%[\s)]*%', obs))
+
+
+@matcher('c08_frozen_range_holds_none')
+def c08_frozen_range_holds_none(w, v):
+    """ExcelModel.compile() pre-evaluates the shrunk model and freezes every
+    node not downstream of the inputs; for some input/output choices a frozen
+    range is assembled with schedula's NONE token in place of a blank cell, so
+    blank-sensitive functions (COUNTA, ISBLANK ...) differ from calculate()."""
+    if not v['sig'].startswith(('differs:', 'reference-differs:')):
+        return False
+    return bool(w.get('frozen_values_holding_NONE'))
